@@ -11,6 +11,7 @@ mod seq_checks;
 mod seq_level;
 mod sched;
 mod seqmc;
+mod sweeps;
 
 fn usage() -> ! {
     eprintln!("usage: plverif <C01..C19> <quick|thorough> | plverif replay <file>");
@@ -75,12 +76,17 @@ fn main() {
                     r.add_cov_u64("evaluations", t.evaluations);
                     r.add_cov_u64("match_result_builder_sequences", t.evaluations);
                     r.append_cov("samples", t.samples.clone());
+                    sweeps::add_to(&mut r, p, tier);
                     r.concat_cov("rule", "engine G: every sequence of <= 4 transactions with quantities in {0,1,2,3,MAX} appended to MatchResult::new(id, q), q in {0..6,MAX}, sum <= q: remaining = q - sum, is_complete <=> remaining = 0, executed_quantity = sum");
                     r.finish()
                 }
-                "C01" | "C04" | "C06" | "C07" | "C10" | "C11" => {
-                    seq_checks::run(p, tier)
+                "C01" | "C06" => {
+                    let mut r = common::Report::new(p, tier, "model_checking");
+                    seq_checks::run_into(&mut r, p, tier, 1.0);
+                    sweeps::add_to(&mut r, p, tier);
+                    r.finish()
                 }
+                "C04" | "C07" | "C10" | "C11" => seq_checks::run(p, tier),
                 "C19" => c19::run(tier),
                 "C05" => grid::run_c05(tier),
                 "C16" => grid::run_c16(tier),
